@@ -145,7 +145,7 @@ def run_explore(shard, mon, S, p):
     sched.install()
     rng = env.rng("C14", shard["_name"])
     traces = set()
-    budget = sz["budget"]
+    budget = sz["budget"] if gran == "line" else max(2000, sz["budget"] // 3)
     order = sorted(shard["pairs"], key=lambda x: 0 if x[0].startswith("multi") else 1 if x[0].startswith(("algo", "api", "nat")) else 2)
     try:
         for name, a, b in order:
